@@ -117,8 +117,8 @@ def finish(res, tier, seed, t0, explanation, assumptions, checker_cmd, trusted_b
             json.dump(dict(o.as_dict(), property=pid), fh, indent=1)
         print("  %s: rule %s: %s [%s]" % (o.where, o.rule, o.msg, o.key))
         print("VIOLATION property=%s replay=%s" % (pid, path))
-    if violations and code == 0:
-        code = 1
+    if violations:
+        code = 1        # a derived violation is reported even if another rule could not run
 
     # per-rule statistics
     rules = {}
